@@ -111,7 +111,7 @@ def build_classes(specs):
 
     def make_unary(cname, dunder, beh):
         def method(self, *args):
-            if dunder == "__getitem__" and args and type(args[0]) is int and not 0 <= args[0] < 2:
+            if dunder == "__getitem__" and args and isinstance(args[0], int) and not 0 <= args[0] < 2:
                 raise IndexError("generated")      # keeps the old-style iteration protocol finite
             return act(beh, cname, dunder)
         method.__name__ = dunder
@@ -452,13 +452,20 @@ def carrier_spec(rng, name, names, shape=None, how=None, catch=None, klass=None,
     if builtin_base is not None:
         # a subclass of a builtin keeps the builtin's own comparisons (a generated __gt__ that contradicts the
         # inherited C-level __lt__ only exercises the mirrored-comparison side condition, not this dimension) ...
-        for d in [d for d in spec["dunders"] if d in CMP_NAMES and d in vars(builtin_base)]:
-            del spec["dunders"][d]
+        # ... and its own sequence / number slots: `StrSub() + proxy` asks str.__add__ (which RAISES for a foreign
+        # operand) before the proxy's __radd__ as soon as StrSub defines __radd__ itself - CPython corners of builtin
+        # subclasses, a dimension of their own (notes/C16.md section 7)
+        partner = {}
+        for f, rd, _ in ARITH:
+            partner[f], partner[rd] = rd, f
+        for d in list(spec["dunders"]):
+            if (d in CMP_NAMES and d in vars(builtin_base)) or hasattr(builtin_base, d) or \
+                    (d in partner and hasattr(builtin_base, partner[d])):
+                del spec["dunders"][d]
     if builtin_base in (int, str):
         # ... and an int / str subclass the builtin's own conversions (CPython short-cuts exact-type checks such as
         # PyLong_Check before it looks at an overriding __index__: a dimension of its own, see notes/C16.md section 7)
-        for d in [d for d in spec["conv"] if hasattr(builtin_base, d)]:
-            del spec["conv"][d]
+        spec["conv"] = {}       # (complex('m1') / int('m1') parse the text and never look at __complex__ / __int__)
     if catch and spec["shape"] not in ("enum", "intenum", "strenum", "namedtuple", "dataclass"):
         spec["catch"] = catch       # (the enum / dataclass machinery itself probes attributes while the class is made)
     if klass:
@@ -488,6 +495,13 @@ def plain_safe(spec, rng=None):
     return s2
 
 
+COLLIDE_STATS = {}
+
+
+def _stat(key, n=1):
+    COLLIDE_STATS[key] = COLLIDE_STATS.get(key, 0) + n
+
+
 def collide_battery(rng, specs, subject, others, per_family):
     """The operation battery on proxies of `subject` (a value spec of a carrier class)."""
     out = []
@@ -501,9 +515,29 @@ def collide_battery(rng, specs, subject, others, per_family):
             return dict(subject, payload=rng.choice([0, 1, 2]))
         return rng.choice(vals)
     by_name = {s["name"]: s for s in specs}
+    env = build_classes(specs)
+    answers = {}
 
     def ok_plain(v):
-        return v["kind"] != "user" or not answers_private(by_name[v["cls"]])
+        """may this value stand as a PLAIN operand?  not if it answers the proxy's reserved underscore names (measured
+        on an instance: a generated __getitem__ behind an attribute-dict answers every name)"""
+        if v["kind"] != "user":
+            return True
+        if v["cls"] not in answers:
+            a = answers_private(by_name[v["cls"]])
+            if not a:
+                obj = build_value(v, env)
+                for n in vocabulary()["private"]:
+                    try:
+                        getattr(obj, n)
+                        a = True
+                        break
+                    except Exception:       # noqa
+                        pass
+            answers[v["cls"]] = a
+        if answers[v["cls"]]:
+            _stat("skipped: a PLAIN operand that answers the proxy's reserved underscore names")
+        return not answers[v["cls"]]
     convs = list(CONV)
     for op in (convs if per_family is None else rng.sample(convs, min(per_family, len(convs)))):
         out.append({"family": _fam(op), "op": op, "left": subject, "classes": specs})
@@ -529,11 +563,16 @@ def collide_battery(rng, specs, subject, others, per_family):
         for k in ([{"kind": "int", "expr": "0"}, {"kind": "str", "expr": "'payload'"}, pick_other()]):
             if ok_plain(k):
                 out.append({"family": "container", "op": op, "left": subject, "right": k, "classes": specs})
-    # a plain carrier as the needle / key of a proxied builtin container
-    for cont in ("[1, 2]", "{1: 2}", "(3,)"):
+            if rng.random() < 0.5:
+                out.append({"family": "container", "op": op, "left": subject, "right": k, "placement": "both",
+                            "classes": specs})
+    # a carrier as the needle / key of a proxied builtin container (plain, and a call() result itself)
+    for kind, cont in (("list", "[1, 2]"), ("dict", "{1: 2}"), ("tuple", "(3,)")):
         if ok_plain(subject):
-            out.append({"family": "container", "op": "contains", "left": {"kind": "list", "expr": cont},
+            out.append({"family": "container", "op": "contains", "left": {"kind": kind, "expr": cont},
                         "right": subject, "classes": specs})
+        out.append({"family": "container", "op": "contains", "left": {"kind": kind, "expr": cont},
+                    "right": subject, "placement": "both", "classes": specs})
     for c in [subject["cls"], "object", "int", "tuple", "dict", "str"]:
         out.append({"family": "isinstance", "op": "isinstance", "left": subject, "cls": c, "classes": specs})
     ex = [("fstring", [subject]), ("sum", [subject]), ("sorted", [subject]), ("dict_lookup", [subject, subject]),
@@ -550,6 +589,12 @@ def collide_battery(rng, specs, subject, others, per_family):
     out.append({"family": "len_fn", "op": "len_fn", "left": subject, "placement": "proxy", "classes": specs})
     if ok_plain(subject):
         out.append({"family": "len_fn", "op": "len_fn", "left": subject, "placement": "raw", "classes": specs})
+    sspec = by_name[subject["cls"]]
+    _stat("carrier:" + sspec.get("shape", "object") + (":catch-all" if sspec.get("catch") else "")
+          + (":__class__" if sspec.get("klass") else ""))
+    for a in sspec.get("attrs", []):
+        _stat("how:" + a[1])
+    _stat("cases", len(out))
     return out
 
 
@@ -749,7 +794,8 @@ def case_operands(case):
         return env, [v], [SandboxResult(v)]
     if fam == "container":
         c, k = build_value(case["left"], env), build_value(case["right"], env)
-        return env, [c, k], [SandboxResult(c), k]
+        # placement "both": the key / needle is a call() result as well (search only; the model has no such request)
+        return env, [c, k], [SandboxResult(c), SandboxResult(k) if case.get("placement") == "both" else k]
     if fam == "isinstance":
         v = build_value(case["left"], env)
         c = env[case["cls"]]
@@ -812,7 +858,7 @@ def plain_operands(case):
     if fam in ("binary", "comparison"):
         return {"proxy-left": [case["right"]], "proxy-right": [case["left"]]}.get(case["placement"], [])
     if fam == "container" and "right" in case:
-        return [case["right"]]
+        return [case["right"]] if case.get("placement") != "both" else []
     if fam == "extra":
         return [a for i, a in enumerate(case["args"]) if i not in case["proxied"]]
     if fam == "len_fn" and case["placement"] == "raw":
@@ -862,6 +908,8 @@ def proxied_operands(case):
         return [a for i, a in enumerate(case["args"]) if i in case["proxied"]]
     if fam == "len_fn" and case["placement"] == "raw":
         return []
+    if fam == "container" and case.get("placement") == "both":
+        return [case["left"], case["right"]]
     return [case["left"]]
 
 
@@ -887,6 +935,8 @@ def structural_cause(case):
     proxied = proxied_operands(case)
     for v in proxied:
         if v["kind"] == "user" and by_name[v["cls"]].get("klass"):
+            if case["family"] == "isinstance" and not issubclass(env[v["cls"]], env[case["cls"]]):
+                continue        # only the REAL class is lost behind the proxy; the claimed one must still answer
             return "value-overrides-__class__"
     if proxied:
         reads = set()
@@ -938,6 +988,8 @@ def signature(case):
         sig.update(value=kind_of(case["left"]))
         if "right" in case:
             sig.update(arg=kind_of(case["right"]))
+            if case.get("placement") == "both":
+                sig.update(placement="both")
     return sig
 
 
@@ -975,7 +1027,8 @@ def describe(case):
     if fam == "len_fn":
         return "pedal.sandbox.result.len(%s)" % (show(case["left"]) if case["placement"] == "raw" else "P(%s)" % show(case["left"]))
     if "right" in case:
-        return "%s(P(%s), %s)" % (case["op"], show(case["left"]), show(case["right"]))
+        return "%s(P(%s), %s)" % (case["op"], show(case["left"]),
+                                  ("P(%s)" if case.get("placement") == "both" else "%s") % show(case["right"]))
     return "%s(P(%s))" % (case["op"], show(case["left"]))
 
 
